@@ -4,6 +4,7 @@ CONSTANTS
   MaxBlocks = 3
   Protocols = {2, 3, 4}
   AllPatterns = TRUE
+  StepCheck = TRUE
   AsCoded = FALSE
 INVARIANTS TypeOK FinalEqualsSrc MatchIsProven SkippedNeverExceedsProven TailCut KeptOnlyProven OthersUntouched NoFailure NoStuck
 PROPERTIES Termination
